@@ -6,9 +6,6 @@
 # gated build, in a dependency while the dependent builds); oracle at quiescence: every output equals the stamp of its
 # declared inputs as they are now, services restarted after their last change, zinoma still watching.
 # KNOWN FINDING KF1: a change of a target's OWN input while its OWN script runs is absorbed (D12) — printed, not failed.
-import concurrent.futures
-import json
-import random
 from slices import actor, engine, watchrun
 
 KF1_REPLAY = ({'w0': {'kind': 'build', 'own_input': True, 'producers': [], 'deps': []}}, ['w0'], True,
@@ -17,35 +14,18 @@ KF1_REPLAY = ({'w0': {'kind': 'build', 'own_input': True, 'producers': [], 'deps
 
 def watch_campaign(ck):
     n = 18 if ck.tier == 'quick' else 220
-    jobs = [(0, KF1_REPLAY[0], KF1_REPLAY[1], KF1_REPLAY[2], KF1_REPLAY[3], random.Random(1))]
-    # clean tree + a producer whose output directory does not exist yet (D11 / FX8)
-    jobs.append((1, {'w0': {'kind': 'build', 'own_input': True, 'producers': [], 'deps': []},
-                     'w1': {'kind': 'build', 'own_input': False, 'producers': ['w0'], 'deps': []}}, ['w1'], False,
-                 [('change', 'w0'), ('idle',)], random.Random(2)))
-    for i in range(2, n):
-        r = random.Random(ck.rng.getrandbits(48))
-        T, roots = watchrun.gen_watch_graph(r)
-        gated = r.random() < 0.6
-        jobs.append((i, T, roots, gated, watchrun.gen_plan(r, T, roots, gated), r))
-    found = []
-
-    def one(j):
-        i, T, roots, gated, plan, r = j
-        return j, watchrun.scenario(r, T, roots, gated, plan, tag='C06_%d' % i)
-    with concurrent.futures.ThreadPoolExecutor(max_workers=8) as ex:
-        for j, (obs, V, known) in ex.map(one, jobs):
-            i, T, roots, gated, plan, r = j
-            ck.count(('watch', json.dumps(T, sort_keys=True), tuple(roots), gated, json.dumps(plan)), nontrivial=len(plan) > 1,
-                     sample={'targets': T, 'roots': roots, 'gated': gated, 'plan': plan, 'trace': obs['trace'][:14]})
-            for st in plan:
-                ck.tally('watch:step=' + st[0])
-            ck.tally('watch:targets=%d' % len(T))
-            for fid, text in known:
-                ck.violation({'kind': 'watch-scenario', 'what': text, 'targets': T, 'roots': roots, 'plan': plan,
-                              'observed_trace': obs['trace']}, found_input=True, finding_id=fid)
-            if 'C06' in V:
-                found.append(({'targets': T, 'roots': roots, 'fail': [], 'gated': gated, 'trace': obs['trace'],
-                               'outcome': 'watch', 'exit_code': None, 'stderr_tail': '', 'plan': plan}, V['C06']))
+    fixed = [KF1_REPLAY,
+             # clean tree + a producer whose output does not exist yet (D11 / FX8)
+             ({'w0': {'kind': 'build', 'own_input': True, 'producers': [], 'deps': []},
+               'w1': {'kind': 'build', 'own_input': False, 'producers': ['w0'], 'deps': []}}, ['w1'], False,
+              [('change', 'w0'), ('idle',)]),
+             # a failing version, then the repair (the watcher must still be there and the repair must be built)
+             ({'w0': {'kind': 'build', 'own_input': True, 'producers': [], 'deps': []}}, ['w0'], False,
+              [('break', 'w0'), ('idle',), ('change', 'w0'), ('idle',)])]
+    found, known = watchrun.campaign(ck, 'C06', n, fixed=fixed)
+    for fid, text, o in known:
+        ck.violation({'kind': 'watch-scenario', 'what': text, 'targets': o['targets'], 'roots': o['roots'], 'plan': o['plan'],
+                      'observed_trace': o['trace']}, found_input=True, finding_id=fid)
     return found
 
 
